@@ -2,8 +2,15 @@ pub fn bzr_url_to_git_url(
     location: &str,
 ) -> Result<(String, Option<String>, Option<String>), dromedary::urlutils::Error> {
     let (target_url, target_params) = dromedary::urlutils::split_segment_parameters(location)?;
-    let branch = target_params.get("branch").map(|s| s.to_string());
-    let ref_ = target_params.get("ref").map(|s| s.to_string());
+    // git_url_to_bzr_url percent-encodes the parameter values; decode them again.
+    let branch = target_params
+        .get("branch")
+        .map(|s| dromedary::urlutils::unescape(s))
+        .transpose()?;
+    let ref_ = target_params
+        .get("ref")
+        .map(|s| dromedary::urlutils::unescape(s))
+        .transpose()?;
     Ok((target_url.to_string(), branch, ref_))
 }
 
